@@ -1,8 +1,247 @@
-import OmplModel.Model.Soln
-/-! C04 property theorems (stub while the check is brought up). -/
+import OmplModel.Proofs.Soln
+/-!
+C04 — reported solution costs are truthful, admissible-bounded and only improve: the parts of the
+property that are statements about the problem definition's data structure (A) and about the cost
+algebra (B).  Part (C) (what each planner stores) is a per-run oracle in checks/c04.py.
+
+`IsSWO r` = `r` is a strict weak order (asymmetric + negatively transitive).  The comparisons on
+`double` (`<`) and `isCostBetterThan` are parameters assumed to be strict weak orders; every linear
+order provides them (`isSWO_of_linearOrder`, `isSWO_flip`), NaN-free `double` being the intended one.
+`Homog h l` = every record of `l` has `hasOpt = h` (all carry the objective, or none does).
+-/
 namespace OmplModel.Props.C04
 open OmplModel.Soln
 
-theorem isSatisfied_iff {α} (A : CostAlg α) (thr c : α) : A.isSatisfied thr c = A.better c thr := rfl
+variable {α : Type}
+
+/-- the comparisons of a minimizing / maximizing objective over a linear order. -/
+def cmpMin [LinearOrder α] : Cmp α := ⟨fun a b => decide (a < b), fun a b => decide (a < b)⟩
+def cmpMax [LinearOrder α] : Cmp α := ⟨fun a b => decide (a < b), fun a b => decide (b < a)⟩
+
+/-- [order only] `operator<` is a strict weak order on homogeneous sets: asymmetric, negatively
+transitive (hence irreflexive, transitive, with transitive incomparability). -/
+theorem lt_strictWeakOrder {o : Cmp α} (hl : IsSWO o.lt) (hb : IsSWO o.better) (h : Bool) :
+    (∀ a b : Soln α, a.hasOpt = h → b.hasOpt = h → Soln.lt o a b = true → Soln.lt o b a = false) ∧
+    (∀ a b c : Soln α, a.hasOpt = h → b.hasOpt = h → c.hasOpt = h →
+      Soln.lt o a c = true → Soln.lt o a b = true ∨ Soln.lt o b c = true) ∧
+    (∀ a : Soln α, Soln.lt o a a = false) ∧
+    (∀ a b c : Soln α, a.hasOpt = h → b.hasOpt = h → c.hasOpt = h →
+      Soln.lt o a b = true → Soln.lt o b c = true → Soln.lt o a c = true) := by
+  refine ⟨fun a b ha hb' hab => lt_asymm hl hb a b (ha.trans hb'.symm) hab,
+    fun a b c ha hb' _ hac => lt_negtrans hl hb a b c (ha.trans hb'.symm) hac,
+    fun a => lt_irrefl hl hb a, ?_⟩
+  intro a b c ha hb' hc hab hbc
+  rcases lt_negtrans hl hb a c b (ha.trans hc.symm) hab with h1 | h1
+  · exact h1
+  · have := lt_asymm hl hb b c (hb'.trans hc.symm) hbc
+    simp_all
+
+/-- over any linear order (minimizing or maximizing objective). -/
+theorem lt_strictWeakOrder_linear [LinearOrder α] (h : Bool) :
+    (∀ a b : Soln α, a.hasOpt = h → b.hasOpt = h → Soln.lt cmpMin a b = true → Soln.lt cmpMin b a = false) ∧
+    (∀ a b : Soln α, a.hasOpt = h → b.hasOpt = h → Soln.lt cmpMax a b = true → Soln.lt cmpMax b a = false) :=
+  ⟨(lt_strictWeakOrder (o := cmpMin) isSWO_of_linearOrder isSWO_of_linearOrder h).1,
+   (lt_strictWeakOrder (o := cmpMax) isSWO_of_linearOrder (isSWO_flip isSWO_of_linearOrder) h).1⟩
+
+example : Soln.lt (cmpMin (α := Int)) ⟨0, false, 0, false, true, 1, 1⟩ ⟨1, false, 0, false, true, 2, 2⟩ = true := by decide
+
+/-- F11: on *mixed* sets `operator<` is not asymmetric (only `this->opt_` is consulted):
+`a` carries a minimizing objective with cost 1 (length 2), `b` has no objective, `cost_` 2, length 1. -/
+theorem lt_not_swo_mixed :
+    ¬ (∀ a b : Soln Int, Soln.lt cmpMin a b = true → Soln.lt cmpMin b a = false) := by
+  intro h
+  have := h ⟨0, false, 0, false, true, 1, 2⟩ ⟨1, false, 0, false, false, 2, 1⟩ (by decide)
+  revert this
+  decide
+
+/-- F11 with the `cost_ = 0` a solution without objective has by default, under a maximizing
+objective (MaximizeMinClearance): `a < b` and `b < a`. -/
+theorem lt_not_swo_mixed_default_cost :
+    ¬ (∀ a b : Soln Int, Soln.lt cmpMax a b = true → Soln.lt cmpMax b a = false) := by
+  intro h
+  have := h ⟨0, false, 0, false, true, 1, 2⟩ ⟨1, false, 0, false, false, 0, 1⟩ (by decide)
+  revert this
+  decide
+
+/-- F11, consequence: adding these two leaves an inversion in the list. -/
+theorem add_mixed_inversion :
+    firstInversion (cmpMax (α := Int))
+      (SolnSet.addAll cmpMax [] [⟨-1, false, 0, false, true, 1, 2⟩, ⟨-1, false, 0, false, false, 0, 1⟩]) ≠ none := by
+  decide
+
+/-- after any sequence of `add`s (from the empty set) the list is a permutation of the inputs
+stamped with their insertion index, and on homogeneous inputs it has no inversion w.r.t. `lt`. -/
+theorem add_sorted_perm {o : Cmp α} (hl : IsSWO o.lt) (hb : IsSWO o.better) (h : Bool)
+    (xs : List (Soln α)) (hx : Homog h xs) :
+    (SolnSet.addAll o [] xs).Perm (stamp 0 xs) ∧ Sorted o (SolnSet.addAll o [] xs) := by
+  refine ⟨by simpa using addAll_perm o [] xs, ?_⟩
+  exact addAll_sorted hl hb [] xs (fun _ hz => by simp at hz) (by simp [Sorted]) hx
+
+/-- the permutation part needs no assumption at all (it holds for `Float`, NaN included, and for
+mixed sets): nothing is lost, duplicated or re-indexed. -/
+theorem add_perm_any (o : Cmp α) (s : SolnSet α) (xs : List (Soln α)) :
+    (SolnSet.addAll o s xs).Perm (s ++ stamp s.length xs) := addAll_perm o s xs
+
+example : (SolnSet.addAll (cmpMin (α := Int)) [] [⟨-1, true, 5, false, true, 1, 1⟩, ⟨-1, false, 0, false, true, 3, 3⟩]).map (·.idx) = [1, 0] := by
+  decide
+
+/-- the top solution is best: nothing in the set ranks before it; spelled out: an exact solution
+beats every approximate one; among approximate ones the goal difference is minimal; among exact
+ones an objective-satisfying one comes first; within the same class the cost (or, without an
+objective, the length) is not beaten. -/
+theorem top_best {o : Cmp α} (hl : IsSWO o.lt) (hb : IsSWO o.better) (h : Bool)
+    (xs : List (Soln α)) (hx : Homog h xs) (t : Soln α)
+    (ht : SolnSet.top (SolnSet.addAll o [] xs) = some t) :
+    ∀ x ∈ SolnSet.addAll o [] xs,
+      Soln.lt o x t = false ∧
+      (x.approx = false → t.approx = false) ∧
+      (t.approx = true → o.lt x.diff t.diff = false) ∧
+      (t.approx = false → x.approx = false → x.optimized = true → t.optimized = true) ∧
+      (t.approx = false → x.approx = false → x.optimized = t.optimized →
+        (if x.hasOpt then o.better x.cost t.cost else o.lt x.length t.length) = false) := by
+  have hs := (add_sorted_perm hl hb h xs hx).2
+  cases hset : SolnSet.addAll o [] xs with
+  | nil => simp [hset, SolnSet.top] at ht
+  | cons t' l =>
+    rw [hset] at hs ht
+    simp only [SolnSet.top, List.head?_cons, Option.some.injEq] at ht
+    subst ht
+    intro x hxm
+    have hlt := head_best hl hb hs x hxm
+    refine ⟨hlt, ?_, ?_, ?_, ?_⟩ <;>
+    · unfold Soln.lt at hlt
+      rcases x with ⟨xi, xa, xd, xo, xh, xc, xl⟩
+      rcases t' with ⟨ti, ta, td, to, th, tc, tl⟩
+      cases xa <;> cases ta <;> cases xo <;> cases to <;> cases xh <;> simp_all
+
+/-- the accessors report the top solution (`getDifference` is `-1` on the empty set,
+`hasExactSolution = hasSolution && !hasApproximateSolution`). -/
+theorem accessors_mirror_top (minusOne : α) (s : SolnSet α) :
+    (SolnSet.top s = none →
+      SolnSet.isApproximate s = false ∧ SolnSet.isOptimized s = false ∧
+      SolnSet.getDifference minusOne s = minusOne ∧ SolnSet.hasExactSolution s = false) ∧
+    (∀ t, SolnSet.top s = some t →
+      SolnSet.isApproximate s = t.approx ∧ SolnSet.isOptimized s = t.optimized ∧
+      SolnSet.getDifference minusOne s = t.diff ∧ SolnSet.hasExactSolution s = !t.approx) := by
+  cases s with
+  | nil => simp [SolnSet.top, SolnSet.isApproximate, SolnSet.isOptimized, SolnSet.getDifference,
+      SolnSet.hasExactSolution, SolnSet.hasSolution]
+  | cons a l =>
+    simp [SolnSet.top, SolnSet.isApproximate, SolnSet.isOptimized, SolnSet.getDifference,
+      SolnSet.hasExactSolution, SolnSet.hasSolution]
+
+example : SolnSet.getDifference (-1 : Int) [] = -1 := rfl
+
+/-- adding a solution never makes the top worse: the old top does not rank before the new top
+(so across continued solves, which only add, the best solution handed out only improves). -/
+theorem add_min_monotone {o : Cmp α} (hl : IsSWO o.lt) (hb : IsSWO o.better) (h : Bool)
+    (s : SolnSet α) (hs : Homog h s) (x : Soln α) (hx : x.hasOpt = h) (t t' : Soln α)
+    (ht : SolnSet.top s = some t) (ht' : SolnSet.top (SolnSet.add o s x) = some t') :
+    Soln.lt o t t' = false := by
+  have hsorted := add_sorted hl hb s x hs hx
+  have hperm := add_perm o s x
+  have htm : t ∈ SolnSet.add o s x := by
+    refine hperm.mem_iff.mpr (List.mem_append.mpr (Or.inl ?_))
+    cases s with
+    | nil => simp [SolnSet.top] at ht
+    | cons a l => simp only [SolnSet.top, List.head?_cons, Option.some.injEq] at ht; simp [ht]
+  cases hset : SolnSet.add o s x with
+  | nil => rw [hset] at htm; simp at htm
+  | cons a l =>
+    rw [hset] at hsorted ht' htm
+    simp only [SolnSet.top, List.head?_cons, Option.some.injEq] at ht'
+    subst ht'
+    exact head_best hl hb hsorted t htm
+
+/-- … and in particular the best stored cost among exact, equally-flagged solutions never gets worse. -/
+theorem add_best_cost_monotone {o : Cmp α} (hl : IsSWO o.lt) (hb : IsSWO o.better)
+    (s : SolnSet α) (hs : Homog true s) (x : Soln α) (hx : x.hasOpt = true) (t t' : Soln α)
+    (ht : SolnSet.top s = some t) (ht' : SolnSet.top (SolnSet.add o s x) = some t')
+    (hex : t.approx = false) (hex' : t'.approx = false) (hopt : t.optimized = t'.optimized) :
+    o.better t.cost t'.cost = false := by
+  have hlt := add_min_monotone hl hb true s hs x hx t t' ht ht'
+  have hth : t.hasOpt = true := by
+    cases s with
+    | nil => simp [SolnSet.top] at ht
+    | cons a l =>
+      simp only [SolnSet.top, List.head?_cons, Option.some.injEq] at ht
+      exact ht ▸ hs a (by simp)
+  unfold Soln.lt at hlt
+  rcases t with ⟨ti, ta, td, to, th, tc, tl⟩
+  rcases t' with ⟨ui, ua, ud, uo, uh, uc, ul⟩
+  cases to <;> cases uo <;> simp_all
+
+/-- `PathGeometric::cost` is the fold of `motionCost` with `combineCosts` over consecutive states,
+started at `initialCost(front)` and closed with `terminalCost(back)`; identity for the empty path. -/
+theorem pathCost_fold {σ : Type} (A : CostAlg α) (mc : σ → σ → α) (ini ter : σ → α) :
+    pathCost A mc ini ter [] = A.identity ∧
+    ∀ (s : σ) (rest : List σ),
+      pathCost A mc ini ter (s :: rest) =
+        A.combine (((s :: rest).zip rest).foldl (fun c p => A.combine c (mc p.1 p.2)) (ini s))
+          (ter ((s :: rest).getLast (by simp))) := by
+  refine ⟨rfl, fun s rest => ?_⟩
+  simp [pathCost, costLoop_eq_foldl]
+
+/-- no motion is skipped: extending a path by one state combines exactly that motion's cost. -/
+theorem pathCost_last_motion {σ : Type} (A : CostAlg α) (mc : σ → σ → α) (c : α) (l : List σ) (a b : σ) :
+    costLoop A mc c (l ++ [a, b]) = A.combine (costLoop A mc c (l ++ [a])) (mc a b) :=
+  costLoop_snoc A mc c l a b
+
+example : pathCost (σ := Int) ⟨0, (· + ·), fun a b => decide (a < b)⟩ (fun a b => (b - a).natAbs) (fun _ => 0) (fun _ => 0)
+    [0, 3, 1] = (5 : Int) := by decide
+
+/-- [ordered monoid] a path is never shorter than the straight line between its end points, for
+every distance obeying the triangle inequality (`d a a ≤ 0` is the degenerate one-state case). -/
+theorem pathLength_ge_straightLine {σ : Type} [AddCommMonoid α] [PartialOrder α] [IsOrderedAddMonoid α]
+    (d : σ → σ → α) (hself : ∀ a, d a a ≤ 0) (tri : ∀ a b c, d a c ≤ d a b + d b c)
+    (s : σ) (rest : List σ) :
+    d s ((s :: rest).getLast (by simp)) ≤ pathLength 0 (· + ·) d (s :: rest) := by
+  have := lengthLoop_ge d hself tri 0 s rest
+  simpa [pathLength] using this
+
+/-- … and so is the path-length *cost* (`PathLengthOptimizationObjective`: additive algebra,
+`motionCost = distance`, identity initial and terminal cost). -/
+theorem pathLengthCost_ge_straightLine {σ : Type} [AddCommMonoid α] [PartialOrder α] [IsOrderedAddMonoid α]
+    (better : α → α → Bool) (d : σ → σ → α) (hself : ∀ a, d a a ≤ 0) (tri : ∀ a b c, d a c ≤ d a b + d b c)
+    (s : σ) (rest : List σ) :
+    d s ((s :: rest).getLast (by simp)) ≤
+      pathCost (mkAdditive 0 (· + ·) better) d (fun _ => 0) (fun _ => 0) (s :: rest) := by
+  have h := lengthLoop_ge d hself tri 0 s rest
+  rw [lengthLoop_eq_costLoop 0 (· + ·) better] at h
+  simpa [pathCost, mkAdditive] using h
+
+example : pathLength (σ := Int) (0 : Int) (· + ·) (fun a b => ((b - a).natAbs : Int)) [0, 3, 1] = 5 := by decide
+
+/-- `isSatisfied(c)` is `isCostBetterThan(c, threshold)`: a solution must be flagged as meeting the
+objective exactly when its stored cost is better than the threshold. -/
+theorem isSatisfied_iff (A : CostAlg α) (thr c : α) :
+    A.isSatisfied thr c = true ↔ A.better c thr = true := Iff.rfl
+
+example : (mkAdditive (0 : Int) (· + ·) (fun a b => decide (a < b))).isSatisfied 5 3 = true := by decide
+
+/-- [ordered monoid] for the additive algebra, appending the same further cost to two partial
+costs never reverses "not better". -/
+theorem combine_monotone_additive [AddCommMonoid α] [LinearOrder α] [IsOrderedAddMonoid α] (a b c : α)
+    (h : (mkAdditive (0 : α) (· + ·) (fun a b => decide (a < b))).better a b = false) :
+    (mkAdditive (0 : α) (· + ·) (fun a b => decide (a < b))).better
+      ((mkAdditive (0 : α) (· + ·) (fun a b => decide (a < b))).combine a c)
+      ((mkAdditive (0 : α) (· + ·) (fun a b => decide (a < b))).combine b c) = false := by
+  simp only [mkAdditive, decide_eq_false_iff_not, not_lt] at h ⊢
+  exact add_le_add h (le_refl c)
+
+/-- [strict weak order] same for the minimax algebras (Minimax, MaximizeMinClearance). -/
+theorem combine_monotone_minimax {better : α → α → Bool} (hb : IsSWO better) (ident a b c : α)
+    (h : better a b = false) :
+    better ((mkMinimax ident better).combine a c) ((mkMinimax ident better).combine b c) = false := by
+  simp only [mkMinimax]
+  cases h1 : better a c <;> cases h2 : better b c <;> simp
+  · exact h
+  · exact h1
+  · cases h3 : better c b with
+    | false => rfl
+    | true =>
+      have := hb.trans h1 h3
+      simp_all
+  · exact hb.irrefl c
 
 end OmplModel.Props.C04
